@@ -29,6 +29,7 @@ def parse_races(text):
 def main(tier):
     run = vlib.Run("C11", "exploration", tier)
     vlib.build_harness(race=True)
+    vlib.build_harness()
     wd = vlib.spec_scratch(["c11", "crypto"])
     try:
         res = vlib.tlc(wd, "MCConc", cfg="MCConc.cfg", timeout=900)
@@ -48,9 +49,10 @@ def main(tier):
         rounds = 60 if not run.thorough else 1500
         lines, races_all = [], []
         # phase "use": no concurrent Destroy; phase "destroy": one goroutine destroys the client while the others use it
-        for phase, n, extra in (("use", rounds, []), ("destroy", max(10, rounds // 5), ["-destroy"])):
+        for phase, n, extra in (("use", rounds, []), ("destroy", max(10, rounds // 5), ["-destroy"]), ("stress", 3 if not run.thorough else 60, ["-stress"])):
             racelog = os.path.join(wd, "race-" + phase)
-            vlib.run_harness(["c11", "-seed", str(run.seed), "-rounds", str(n), "-out", trace] + extra, timeout=3400, race=True,
+            # the stress rounds look for schedules, not for races: they run without the detector, many times faster
+            vlib.run_harness(["c11", "-seed", str(run.seed), "-rounds", str(n), "-out", trace] + extra, timeout=3400, race=(phase != "stress"),
                              env={"GORACE": "halt_on_error=0 history_size=5 log_path=%s" % racelog}, ok_codes=(0, 3, 66))
             part = vlib.read_ndjson(trace)
             for x in part:
